@@ -164,6 +164,33 @@ pub fn subdivide_unreachable<F: Float>(
     Vec::new()
 }
 
+/// Contract stub of `fill_queue` for its caller's harness: the boxes become the exact min/max over the vertices of each
+/// operand's rings (what `fill_queue_*` prove for rings that have an edge), the queue content is not consulted by the
+/// front end before the shortcut.
+#[cfg(kani)]
+pub fn fill_queue_by_contract<F: Float>(
+    subject: &[Polygon<F>], clipping: &[Polygon<F>], sbbox: &mut BoundingBox<F>, cbbox: &mut BoundingBox<F>, _operation: Operation,
+) -> BinaryHeap<Rc<SweepEvent<F>>> {
+    fn grow<F: Float>(polys: &[Polygon<F>], b: &mut BoundingBox<F>) {
+        let mut i = 0;
+        while i < polys.len() {
+            let pts = &polys[i].exterior().0;
+            let mut j = 0;
+            while j < pts.len() {
+                if pts[j].x < b.min.x { b.min.x = pts[j].x; }
+                if pts[j].y < b.min.y { b.min.y = pts[j].y; }
+                if pts[j].x > b.max.x { b.max.x = pts[j].x; }
+                if pts[j].y > b.max.y { b.max.y = pts[j].y; }
+                j += 1;
+            }
+            i += 1;
+        }
+    }
+    grow(subject, sbbox);
+    grow(clipping, cbbox);
+    BinaryHeap::new()
+}
+
 fn first_x<F: Float>(p: &Polygon<F>) -> F {
     p.exterior().0[0].x
 }
@@ -256,7 +283,7 @@ mod proofs {
 
     #[kani::proof]
     #[kani::stub(robust::orient2d, orient2d_unreachable)]
-    #[kani::stub(std::collections::BinaryHeap::push, heap_push_recorder)]
+    #[kani::stub(super::super::super::fill_queue::fill_queue, fill_queue_by_contract)]
     #[kani::stub(super::super::super::subdivide_segments::subdivide, subdivide_unreachable)]
     #[kani::unwind(6)]
     fn trivial_result_f64() {
@@ -265,7 +292,7 @@ mod proofs {
 
     #[kani::proof]
     #[kani::stub(robust::orient2d, orient2d_unreachable)]
-    #[kani::stub(std::collections::BinaryHeap::push, heap_push_recorder)]
+    #[kani::stub(super::super::super::fill_queue::fill_queue, fill_queue_by_contract)]
     #[kani::stub(super::super::super::subdivide_segments::subdivide, subdivide_unreachable)]
     #[kani::unwind(6)]
     fn trivial_result_f32() {
